@@ -300,7 +300,10 @@ func buildC05(tier string) *core.Plan {
 		}}
 
 	// several inputs: without -f and -o the format is that of the FIRST input's (possibly virtual) extension
-	type multiCase struct{ First, Second string; SkipP bool }
+	type multiCase struct {
+		First, Second string
+		SkipP         bool
+	}
 	var multi []multiCase
 	for _, a := range c05Formats {
 		for _, b := range c05Formats {
